@@ -118,6 +118,12 @@ class Negotiated:
         )
 
         self.local_as = self.sent_open.asn
+        if self.sent_open.asn == AS_TRANS:
+            # the 2-byte My Autonomous System field carries AS_TRANS for a 4-byte local AS (RFC 6793):
+            # the true AS is the one we advertised in the 4-byte AS capability
+            sent_asn4_capa = sent_capa.get(Capability.CODE.FOUR_BYTES_ASN, None)
+            if isinstance(sent_asn4_capa, ASN):
+                self.local_as = sent_asn4_capa
         self.peer_as = self.received_open.asn
         if self.received_open.asn == AS_TRANS and self.asn4:
             asn4_capa = recv_capa.get(Capability.CODE.FOUR_BYTES_ASN, None)
